@@ -251,7 +251,7 @@ func builtinShouldEscape(chr byte) bool {
 	if 'A' <= chr && chr <= 'Z' || 'a' <= chr && chr <= 'z' || '0' <= chr && chr <= '9' {
 		return false
 	}
-	return !strings.ContainsRune("*_+-./", rune(chr))
+	return !strings.ContainsRune("@*_+-./", rune(chr)) // B.2.1 step 6
 }
 
 const escapeBase16 = "0123456789ABCDEF"
